@@ -139,6 +139,7 @@ class Monitors:
         # interpreter keep what earlier tasks of the same process fed them
         self.sampler_model = shared.setdefault('sampler_model', sampler.SamplerModel())
         self.col_prev = shared.setdefault('col_prev', {})
+        self.task_sampler_model = sampler.SamplerModel()      # reading 'counts per task' (a code base may reset the counter per run)
         self.sampler_calls = 0
         self.log = _LogProxy()
         self.expected = streaming.batches(wl['lines'], cli['subsampling'], cli['minibatch_size'])
@@ -170,6 +171,14 @@ class Monitors:
         """All values column `col` has shown to the statistics of this PROCESS: earlier tasks + this one."""
         rows = rows if rows is not None else [r for b in self.batches_rows for r in b]
         return self.col_prev.get(col, []) + [r[j] for r in rows]
+
+    def histories(self, j, col, rows=None):
+        """The statement does not say whether 'the consumed rows' of a second task in a long-lived interpreter are those of
+        the task or of the process; both readings are accepted (the check fails only if the code matches neither)."""
+        rows = rows if rows is not None else [r for b in self.batches_rows for r in b]
+        cur = [r[j] for r in rows]
+        prev = self.col_prev.get(col, [])
+        return [prev + cur, cur] if prev else [cur]
 
     def end_of_task(self):
         focus = self.cli.get('feature_set_focus')
@@ -298,13 +307,14 @@ class Monitors:
         for j, col in enumerate(header):
             if focus and col not in set(focus.split(',')) | {self.cli['label_column']}:
                 continue
-            vals = self.history(j, col, rows)
+            cands = self.histories(j, col, rows)
+            vals = cands[0]
             sk = core_ranking.GLOBAL_CARDINALITY_STORAGE.get(col)
             exact = stats.distinct_nonempty(vals)
             if sk is None:
                 self.violate('C13', 'no-sketch', {'column': col})
                 continue
-            if len(sk) != exact and exact <= 2 ** 17:
+            if not any(len(sk) == stats.distinct_nonempty(h) for h in cands) and exact <= 2 ** 17:
                 hashed = len({core_ranking.internal_hash(v) for v in vals if v})
                 if hashed == len(sk) and exact - hashed <= max(1, exact * exact // 2 ** 30):
                     self.probe('hash32_collision_explained')
@@ -316,18 +326,22 @@ class Monitors:
                 self.violate('C13', 'coverage-batch', {'column': col, 'got': cov, 'exact': expc, 'batch': len(self.batches_rows) - 1})
             cnt = core_ranking.GLOBAL_COUNTS_STORAGE.get(col)
             bound = self.cli['max_unique_hist_constraint']
-            model = stats.BoundedCounter(bound)
-            for v in vals:
-                model.add(v)
-            if cnt is None or dict(cnt.default_counter) != dict(model.c):
+            models = []
+            for h in cands:
+                model = stats.BoundedCounter(bound)
+                for v in h:
+                    model.add(v)
+                models.append(model)
+            if cnt is None or not any(dict(cnt.default_counter) == dict(mm.c) for mm in models):
                 self.violate('C13', 'value-counter-running', {'column': col, 'batches': len(self.batches_rows),
                                                                'got_size': None if cnt is None else len(cnt.default_counter), 'model_size': len(model.c)})
         if self.cli['task'] == 'identify_rare_values':
             thr = self.cli['rare_value_count_upper_bound']
             by_col = {col: self.history(j, col, rows) for j, col in enumerate(header)}
             exp = stats.rare_values(by_col, thr)
+            exp_task = stats.rare_values({col: [r[j] for r in rows] for j, col in enumerate(header)}, thr)
             got = dict(core_ranking.GLOBAL_RARE_VALUE_STORAGE)
-            if got != exp:
+            if got != exp and got != exp_task:
                 diff = sorted(set(got.items()) ^ set(exp.items()), key=repr)[:6]
                 self.violate('C13', 'rare-values-running', {'threshold': thr, 'batches': len(self.batches_rows), 'difference': diff})
 
@@ -477,13 +491,18 @@ class Monitors:
                 self.sampler_model.counts[r] += 1
             return
         problems = self.sampler_model.check_call(cand, cap, returned)
+        problems_task = self.task_sampler_model.check_call(cand, cap, returned) if self.run_index else problems
+        if problems and not problems_task:
+            problems = []
         if cap < len(cand):
             self.probe('c07_cap_binding_calls')
         for p in problems:
             self.violate('C07', 'sampler-call', {'problem': p, 'call': self.sampler_calls, 'cap': cap, 'candidates': len(cand), 'returned': len(returned)})
         actual = dict(core_ranking.GLOBAL_PRIOR_COMB_COUNTS)
         model = {k: v for k, v in self.sampler_model.counts.items()}
-        if {k: v for k, v in actual.items() if v} != {k: v for k, v in model.items() if v}:
+        model_task = {k: v for k, v in self.task_sampler_model.counts.items() if v} if self.run_index else None
+        nz = {k: v for k, v in actual.items() if v}
+        if nz != {k: v for k, v in model.items() if v} and nz != model_task:
             bad = next(k for k in set(actual) | set(model) if actual.get(k, 0) != model.get(k, 0))
             self.violate('C07', 'counter-drift', {'combination': list(bad), 'counter': actual.get(bad, 0), 'selections': model.get(bad, 0), 'call': self.sampler_calls})
 
@@ -554,9 +573,10 @@ class Monitors:
                 continue
             j = header.index(plain)
             exact = stats.distinct_nonempty(self.history(j, plain, rows))
+            exact_any = {stats.distinct_nonempty(h) for h in self.histories(j, plain, rows)}
             per_batch = [stats.coverage(b, len(header), missing)[j] for b in self.batches_rows]
             expcov = stats.annotation_coverage(per_batch)
-            if card != exact:
+            if card not in exact_any:
                 vals = self.history(j, plain, rows)
                 hashed = len({core_ranking.internal_hash(v) for v in vals if v})
                 if hashed == card and exact - hashed <= max(1, exact * exact // 2 ** 30):
@@ -582,18 +602,20 @@ class Monitors:
                 if not self.cli.get('feature_set_focus'):
                     self.violate('C13', 'histogram-missing-column', {'column': col})
                 continue
-            vals = self.history(j, col, rows)
-            if len(set(vals)) >= bound:
-                model = stats.BoundedCounter(bound)
-                for v in vals:
-                    model.add(v)
-                counts = model.c
-                self.probe('counter_bound_reached')
-            else:
-                from collections import Counter
-                counts = Counter(vals)
-            exp = {str(k): v for k, v in stats.repetition_histogram(counts).items()}
-            if {str(k): v for k, v in got[col].items()} != exp:
+            exps = []
+            for vals in self.histories(j, col, rows):
+                if len(set(vals)) >= bound:
+                    model = stats.BoundedCounter(bound)
+                    for v in vals:
+                        model.add(v)
+                    counts = model.c
+                    self.probe('counter_bound_reached')
+                else:
+                    from collections import Counter
+                    counts = Counter(vals)
+                exps.append({str(k): v for k, v in stats.repetition_histogram(counts).items()})
+            exp = exps[0]
+            if {str(k): v for k, v in got[col].items()} not in exps:
                 self.violate('C13', 'value-repetitions', {'column': col, 'written': got[col], 'exact': exp})
             self.probe('histograms_checked')
 
@@ -603,6 +625,7 @@ class Monitors:
         rows = [r for b in self.batches_rows for r in b]
         thr = self.cli['rare_value_count_upper_bound']
         exp = stats.rare_values({col: self.history(j, col, rows) for j, col in enumerate(header)}, thr)
+        exp_task = stats.rare_values({col: [r[j] for r in rows] for j, col in enumerate(header)}, thr)
         if not os.path.exists(p):
             self.violate('C13', 'no-rare-report', {'expected_entries': len(exp)})
             return
@@ -620,7 +643,7 @@ class Monitors:
                     self.violate('C13', 'rare-report-duplicate-row', {'row': r, 'threshold': thr})
                     return
                 got[(r[0], r[1])] = c
-        if got != exp:
+        if got != exp and got != exp_task:
             diff = sorted(set(got.items()) ^ set(exp.items()), key=repr)[:6]
             self.violate('C13', 'rare-report', {'threshold': thr, 'difference': diff, 'written': len(got), 'exact': len(exp)})
         self.probe('rare_reports_checked')
@@ -635,7 +658,8 @@ class Monitors:
         exp = {str(k): v for k, v in self.sampler_model.counts.items()}
         g = {k: v for k, v in got.items() if v}
         e = {k: v for k, v in exp.items() if v}
-        if g != e:
+        e_task = {str(k): v for k, v in self.task_sampler_model.counts.items() if v} if self.run_index else None
+        if g != e and g != e_task:
             bad = next(k for k in set(g) | set(e) if g.get(k) != e.get(k))
             self.violate('C07', 'counts-json', {'combination': bad, 'reported': g.get(bad), 'selections': e.get(bad)})
         self.probe('counts_json_checked')
